@@ -67,7 +67,8 @@ structure Cap (p : Pkt) : Prop where
 structure Env : Prop where
   upd : ∀ t c, T t → A c → T (P.tlsUpdate t c).1
   after : ∀ s : St σ, Dead K T s → Dead K T (afterTls P s).1
-  key : ∀ sel v a b, ¬ K (P.keyUpdate sel v a b).server.key ∧ ¬ K (P.keyUpdate sel v a b).client.key
+  key : ∀ sel v (d : Dec), DeadDec K d → ¬ K (P.keyUpdate sel v d.serverSec d.clientSec).server.key ∧
+    ¬ K (P.keyUpdate sel v d.serverSec d.clientSec).client.key
 
 /-- `output_buffer` only grew by entries of packet type `t` -/
 def Grew (t : PType) (s s' : St σ) : Prop := ∀ e ∈ s'.out, e ∈ s.out ∨ e.ptype = t
@@ -212,7 +213,7 @@ theorem extendGens_dead (henv : Env P K T A) (s : St σ) (h : Dead K T s) : Dead
           · exact h.app gens hg x hx
           · simp only [List.mem_singleton] at hx
             subst hx
-            obtain ⟨k1, k2⟩ := henv.key sel s.version d.serverSec d.clientSec
+            obtain ⟨k1, k2⟩ := henv.key sel s.version d (h.app gens hg d (List.mem_of_getLast? hl))
             refine ⟨fun k hk => ?_, k2⟩
             simp only [AppKeys.toDec, Option.some.injEq] at hk
             rw [← hk]; exact k1
@@ -400,5 +401,134 @@ theorem dead_flow (henv : Env P K T A) (hinit : T P.tlsInit) (ds : List Dgram) (
         obtain ⟨c, dd⟩ := ih s1 (fun d' hd' => hcap d' (List.mem_cons_of_mem _ hd'))
           (fun d' hd' => hok d' (List.mem_cons_of_mem _ hd')) h1.1
         exact ⟨c, h1.2.trans dd⟩
+
+/-! ### the two losses -/
+
+/-- no Handshake / Early decryptor, no application generation -/
+def Keyless (s : St σ) : Prop := s.decHandshake = none ∧ s.decEarly = none ∧ ∀ g, s.decApp = some g → g = []
+
+theorem keyless_iff_dead (s : St σ) (h : Dead (fun _ => True) T s) : Keyless s := by
+  refine ⟨?_, ?_, fun g hg => ?_⟩
+  · cases hd : s.decHandshake with
+    | none => rfl
+    | some d => exact absurd trivial (h.hs d hd).2
+  · cases hd : s.decEarly with
+    | none => rfl
+    | some d => exact absurd trivial (h.early d hd).2
+  · cases g with
+    | nil => rfl
+    | cons d r => exact absurd trivial (h.app _ hg d (List.mem_cons_self ..)).2
+
+/-- **A CRYPTO fragment of the ClientHello is missing from the capture.** `T`: what is then true of the TLS parser for
+    good — no hello complete, nothing reported (`quiet`); `A`: the CRYPTO inputs the capture can still yield (everything
+    but the missing fragment), which keep it that way (`upd`; for `QuicTlsSession`: a gap at offset k keeps everything
+    behind it pending, `Props/C02Crypto`). Then for every datagram sequence of such packets, from a keyless session: nothing
+    raises, `set_tls_decryptors` is never reached — the session stays keyless, every Handshake, 0-RTT and 1-RTT packet is
+    dropped — and `output_buffer` receives frames of Initial-type packets (and VERSION_NEG pseudo frames) only: no 0-RTT /
+    1-RTT STREAM data is exported. -/
+theorem client_hello_fragment_lost_exports_nothing
+    (upd : ∀ t c, T t → A c → T (P.tlsUpdate t c).1) (quiet : ∀ t, T t → P.tlsNewData t = false) (hinit : T P.tlsInit)
+    (ds : List Dgram) (s : St σ) (hs : Keyless s) (hT : T s.tls)
+    (hadm : ∀ d ∈ ds, ∀ p ∈ d.pkts, ∀ b, ∀ dc pn aad pt fs l off len data,
+      decDecrypt P dc ({ p with isServer := b } : Pkt).payload pn aad b = .ok pt → Frame.parseFrames pt = some fs →
+      Frame.Parsed.crypto l off len data ∈ fs → A (cryptoIn { p with isServer := b } off len data))
+    (hok : ∀ d ∈ ds, ∀ p ∈ d.pkts, Pkt.classOk p) :
+    (run P s ds).2 = none ∧ Keyless (run P s ds).1 ∧ GrewInit s (run P s ds).1 := by
+  have henv : Env P (fun _ => True) T A := by
+    refine ⟨upd, fun a ha => ?_, fun _ _ d hd => absurd trivial hd.2⟩
+    have : afterTls P a = (a, none) := by unfold afterTls; rw [quiet _ ha.tls]; simp
+    rw [this]; exact ha
+  have h0 : Dead (fun _ => True) T s := by
+    obtain ⟨a, b, c⟩ := hs
+    refine ⟨fun d hd => ?_, fun d hd => ?_, fun g hg x hx => ?_, hT⟩
+    · rw [a] at hd; cases hd
+    · rw [b] at hd; cases hd
+    · rw [c g hg] at hx; cases hx
+  obtain ⟨r1, r2, r3⟩ := dead_flow P (fun _ => True) T A henv hinit ds s
+    (fun d hd p hp b => ⟨fun _ _ _ _ _ _ hk => absurd trivial hk, hadm d hd p hp b⟩) hok h0
+  exact ⟨r1, keyless_iff_dead T _ r2, r3⟩
+
+/-- the keys derivable without the ServerHello are not in `K`: whatever `dev_quic_keys` returns (for the FIRST OFFERED
+    suite, at the ClientHello) and whatever `key_update` makes of dead secrets -/
+structure KeysDead : Prop where
+  groups : ∀ sel v cr kg, P.devQuicKeys sel v cr = .ok kg →
+    (∀ a b, kg.hs = some (a, b) → ¬ K a.key ∧ ¬ K b.key) ∧
+    (∀ ak, kg.app = some ak → ¬ K ak.server.key ∧ ¬ K ak.client.key) ∧ (∀ ek, kg.early = some ek → ¬ K ek.key)
+  update : ∀ sel v a b, ¬ K (P.keyUpdate sel v a b).server.key ∧ ¬ K (P.keyUpdate sel v a b).client.key
+
+theorem installGroups_dead (s : St σ) (sel : SuiteSel) (kg : KeyGroups) (h : Dead K (fun _ => True) s)
+    (g1 : ∀ a b, kg.hs = some (a, b) → ¬ K a.key ∧ ¬ K b.key)
+    (g2 : ∀ ak, kg.app = some ak → ¬ K ak.server.key ∧ ¬ K ak.client.key) (g3 : ∀ ek, kg.early = some ek → ¬ K ek.key) :
+    Dead K (fun _ => True) (installGroups s sel kg) := by
+  unfold installGroups
+  cases hh : kg.hs with
+  | none => exact h.of K _ rfl rfl rfl trivial
+  | some hk =>
+    obtain ⟨a, b⟩ := hk
+    have dh : DeadDec K ({ alg := sel.alg, server := some a, client := b } : Dec) :=
+      ⟨fun k hk => by simp only [Option.some.injEq] at hk; rw [← hk]; exact (g1 a b hh).1, (g1 a b hh).2⟩
+    cases ha : kg.app with
+    | none => exact ⟨fun d hd => by simp only [Option.some.injEq] at hd; rw [← hd]; exact dh, h.early, h.app, trivial⟩
+    | some ak =>
+      have da : ∀ g, some [ak.toDec sel.alg] = some g → ∀ x ∈ g, DeadDec K x := by
+        intro g hg x hx
+        simp only [Option.some.injEq] at hg
+        subst hg
+        simp only [List.mem_singleton] at hx
+        subst hx
+        exact ⟨fun k hk => by simp only [AppKeys.toDec, Option.some.injEq] at hk; rw [← hk]; exact (g2 ak ha).1, (g2 ak ha).2⟩
+      cases he : kg.early with
+      | none => exact ⟨fun d hd => by simp only [Option.some.injEq] at hd; rw [← hd]; exact dh, h.early, da, trivial⟩
+      | some ek =>
+        exact ⟨fun d hd => by simp only [Option.some.injEq] at hd; rw [← hd]; exact dh,
+          fun d hd => by
+            simp only [Option.some.injEq] at hd; rw [← hd]
+            exact ⟨fun k hk => by simp at hk, g3 ek he⟩, da, trivial⟩
+
+/-- **The datagram(s) carrying the ServerHello are missing from the capture** — partial: under `KeysDead`. The session
+    DOES hold Handshake / Early / Application decryptors from the ClientHello on (first offered suite); the extra
+    hypothesis says these keys are outside `K`, the keys under which the AEAD accepts the capture's packets (`rej`): the
+    first offered suite is not the selected one, or the key log has no lines for this client random. Then for every
+    datagram sequence: nothing raises, every decryptor but the Initial one stays dead, every Handshake / 0-RTT / 1-RTT
+    packet is rejected, and `output_buffer` receives frames of Initial-type packets (and VERSION_NEG pseudo frames) only.
+    Without `KeysDead` the statement is false: `Ex.server_hello_lost_first_offered_exports`. -/
+theorem server_hello_lost_exports_nothing (hk : KeysDead P K)
+    (ds : List Dgram) (s : St σ) (h0 : Dead K (fun _ => True) s)
+    (rej : ∀ d ∈ ds, ∀ p ∈ d.pkts, ∀ ct, p.payload = some ct → ∀ a k n ad, ¬ K k →
+      ∃ e, P.prims.aeadOpen a k n ad 16 ct = .error e)
+    (hok : ∀ d ∈ ds, ∀ p ∈ d.pkts, Pkt.classOk p) :
+    (run P s ds).2 = none ∧ Dead K (fun _ => True) (run P s ds).1 ∧ GrewInit s (run P s ds).1 := by
+  have henv : Env P K (fun _ => True) (fun _ => True) := by
+    refine ⟨fun _ _ _ _ => trivial, fun a ha => ?_, fun sel v d _ => hk.update sel v _ _⟩
+    unfold afterTls
+    by_cases hn : P.tlsNewData a.tls = true
+    · rw [if_pos hn]
+      cases P.tlsClientRandom a.tls with
+      | none => exact ha.of K _ rfl rfl rfl trivial
+      | some cr =>
+        cases P.tlsCiphersuite a.tls with
+        | none => exact ha.of K _ rfl rfl rfl trivial
+        | some cs =>
+          simp only
+          have hset : Dead K (fun _ => True) (setTlsDecryptors P a cr cs).1 := by
+            unfold setTlsDecryptors
+            cases selectSuite cs with
+            | none => exact ha.of K _ rfl rfl rfl trivial
+            | some sel =>
+              simp only
+              cases hd : P.devQuicKeys sel a.version cr with
+              | error e => exact ha.of K _ rfl rfl rfl trivial
+              | ok kg =>
+                obtain ⟨g1, g2, g3⟩ := hk.groups sel a.version cr kg hd
+                exact installGroups_dead K _ sel kg (ha.of K _ rfl rfl rfl trivial) g1 g2 g3
+          cases hst : setTlsDecryptors P a cr cs with
+          | mk s1 e =>
+            rw [hst] at hset
+            cases e with
+            | some e => exact hset
+            | none => exact hset.of K _ rfl rfl rfl trivial
+    · rw [if_neg hn]; exact ha
+  exact dead_flow P K (fun _ => True) (fun _ => True) henv trivial ds s
+    (fun d hd p hp b => ⟨fun ct hct => rej d hd p hp ct hct, fun _ _ _ _ _ _ _ _ _ _ _ _ => trivial⟩) hok h0
 
 end TLX.Props.C02Loss
